@@ -246,6 +246,7 @@ fn rnd_op(kind: Kind, cfg: &Cfg, k: u32, rng: &mut Rng, mix: Mix) -> Op {
                 4 => cfg.a.saturating_sub(1),
                 5 => 2,
                 6 => 3,
+                _ if rng.below(6) == 0 => [usize::MAX, 1usize << 63, (1usize << 63) - 1, 1usize << 32][rng.below(4) as usize],
                 _ => rng.below(7) as usize,
             }),
             12..=19 => Op::GetLru,
@@ -443,7 +444,9 @@ pub fn huge_history(kind: Kind, variant: usize, rng: &mut Rng) -> (Cfg, Vec<Op>,
             ops.extend([Op::PeekLru, Op::PeekLruMut(false), Op::GetMru, Op::Put(n + 1), Op::Put(n + 2)]);
             ops.push(Op::Iter(IterSpec { list: 0, fam: Fam::IterLru, steps: 6, pat: 0b010101, write: false, clone_at: 3, fin: 1 }));
             // shrink by thousands in one call, then by a handful, then to zero and back
-            ops.extend([Op::Resize(total - 1100), Op::Put(n + 3), Op::Resize(10), Op::Put(n + 4), Op::PeekLru, Op::Resize(0), Op::Put(n + 5), Op::Resize(total), Op::Len]);
+            // (1100 of 1500, resp. 4200 of 4500 entries leave in one call)
+            let first_cut = if variant == 0 { 1100 } else { 4200 };
+            ops.extend([Op::Resize(total - first_cut), Op::Put(n + 3), Op::Resize(10), Op::Put(n + 4), Op::PeekLru, Op::Resize(0), Op::Put(n + 5), Op::Resize(total), Op::Len]);
             for k in 0..(total as u32 + 50) {
                 ops.push(Op::Put(k));
             }
@@ -486,6 +489,7 @@ pub fn directed(kind: Kind) -> Vec<(Cfg, Vec<Op>, &'static str)> {
             v.push((Cfg::lru(1), vec![Put(1), Put(2), Put(1), GetLru, PeekOrPut(3), ContainsOrPut(3), RemoveLru, RemoveLru], "capacity-1"));
             v.push((Cfg::lru(3), vec![Put(1), Put(2), Put(3), g(1), GetLru, GetLruMut(true), PeekLruMut(true), Put(4), Resize(1), Resize(5), Put(5), Put(6), Purge, Put(7)], "order-ops"));
             v.push((Cfg::lru(2), vec![Put(1), Put(2), GetMut(1, false, true), Put(3), Put(4), Remove(3, true), Resize(0), Resize(0), Put(9)], "update-then-evict"));
+            v.push((Cfg::lru(3), vec![Put(1), Put(2), Put(3), Resize(usize::MAX), Len, Put(4), Resize(1usize << 63), Len, Put(5), Resize((1usize << 63) - 1), Len, Resize(1usize << 32), PeekLru, Resize(2), Len, Put(6)], "practically-unbounded-capacities"));
         }
         Kind::Slru => {
             v.push((Cfg::slru(2, 1), vec![Put(1), g(1), Put(2), Put(2), Put(3), g(3), Put(4), Put(5)], "put-on-probationary-with-protected-full"));
